@@ -29,6 +29,7 @@ type request struct {
 	threaded bool
 	args     []string          // cli: arguments with @in:NAME@ / @out:NAME@ placeholders; lib: parameters
 	files    map[string]string // input files by NAME
+	early    *runOut           // cli: one run made more than a second before the others (see earlyRuns)
 }
 
 func encFiles(m map[string]string) string {
@@ -133,7 +134,31 @@ func runCLIOnce(c *core.Ctx, r *request, n int) runOut {
 	default:
 		os.Unsetenv("GOGC")
 	}
+	// … nor the same user environment: none of these is an input, an option or the seed
+	envKeys := []string{"TZ", "LANG", "LC_ALL", "USER", "LOGNAME", "COLUMNS", "LINES", "TERM", "HOSTNAME"}
+	saved := map[string]*string{}
+	for _, k := range envKeys {
+		if v, ok := os.LookupEnv(k); ok {
+			vv := v
+			saved[k] = &vv
+		} else {
+			saved[k] = nil
+		}
+	}
+	if n%2 == 1 {
+		for k, v := range map[string]string{"TZ": "Asia/Tokyo", "LANG": "fr_FR.UTF-8", "LC_ALL": "fr_FR.UTF-8", "USER": "someoneelse", "LOGNAME": "someoneelse",
+			"COLUMNS": "40", "LINES": "10", "TERM": "dumb", "HOSTNAME": "otherhost"} {
+			os.Setenv(k, v)
+		}
+	}
 	res := c.RunCLI("", 60*time.Second, args...)
+	for _, k := range envKeys {
+		if saved[k] == nil {
+			os.Unsetenv(k)
+		} else {
+			os.Setenv(k, *saved[k])
+		}
+	}
 	os.Unsetenv("GOMAXPROCS")
 	os.Unsetenv("GOGC")
 	var b strings.Builder
@@ -313,14 +338,53 @@ func sortedLines(s string) string {
 	return strings.Join(l, "\n")
 }
 
+// thread sweep: a request whose arguments contain the placeholder @threads@ is run once per thread count of
+// threadSweep (in separate processes) instead of repeatedly with one count: the number of threads is a
+// configuration, not an input — apart from the order of id-carrying records the bytes must be those of -t 1.
+// The counts include ones that do not divide the number of branches and ones larger than it.
+var threadSweep = []string{"1", "2", "3", "5", "7", "8", "64", "200"}
+
+func hasThreadSweep(r *request) bool {
+	for _, a := range r.args {
+		if a == "@threads@" {
+			return true
+		}
+	}
+	return false
+}
+
+func withThreads(r *request, t string) *request {
+	r2 := *r
+	r2.args = make([]string, len(r.args))
+	for i, a := range r.args {
+		if a == "@threads@" {
+			a = t
+		}
+		r2.args[i] = a
+	}
+	return &r2
+}
+
 // execute a request `nruns` times and emit its case line
 func execute(c *core.Ctx, r *request, nruns int) {
 	var outs []runOut
 	if strings.Contains(r.tpl, "reroot-outgroup-nonmono") && nruns < 20 {
 		nruns = 20 // a dependence that shows in few runs only (a handful of possible outcomes)
 	}
-	if r.kind == "cli" {
-		outs = append(outs, runInprocPair(c, r, 0)...)
+	if r.kind == "cli" && hasThreadSweep(r) {
+		for i, t := range threadSweep {
+			o := runCLIOnce(c, withThreads(r, t), i)
+			o.mode = "proc-t" + t
+			outs = append(outs, o)
+		}
+		nruns = 0
+	} else {
+		if r.early != nil {
+			outs = append(outs, *r.early)
+		}
+		if r.kind == "cli" {
+			outs = append(outs, runInprocPair(c, r, 0)...)
+		}
 	}
 	for i := 0; i < nruns; i++ {
 		switch r.kind {
@@ -442,13 +506,44 @@ func selfTest(c *core.Ctx) {
 	c.Emit("C18.selftest", core.Escape(got))
 }
 
+// A clock read with a coarse unit (a date, a time in seconds written into the output) gives the same bytes to
+// runs made within the same second, and the runs of one template take a few milliseconds each.  So every CLI
+// request is first run ONCE, then the harness waits for more than a second, and only then come the usual runs:
+// the early output is compared with them like any other run.
+func earlyRuns(c *core.Ctx, reqs []*request) {
+	any := false
+	for i, r := range reqs {
+		if r.kind == "cli" && !hasThreadSweep(r) {
+			o := runCLIOnce(c, r, 1000+i)
+			o.mode = "proc-early"
+			r.early = &o
+			any = true
+		}
+	}
+	if any {
+		time.Sleep(1100 * time.Millisecond)
+	}
+}
+
 func replay(c *core.Ctx, lines []string) {
-	for _, l := range lines {
+	var reqs []*request
+	byLine := map[int]*request{}
+	for i, l := range lines {
+		f := strings.Split(l, "\t")
+		if f[0] == "C18.run" && len(f) >= 7 {
+			r := &request{kind: f[1], tpl: f[2], threaded: f[3] == "1", args: decList(f[5]), files: decFiles(f[6])}
+			reqs = append(reqs, r)
+			byLine[i] = r
+		}
+	}
+	if c.Gotree != "" {
+		earlyRuns(c, reqs)
+	}
+	for i, l := range lines {
 		f := strings.Split(l, "\t")
 		switch {
 		case f[0] == "C18.run" && len(f) >= 7:
-			r := &request{kind: f[1], tpl: f[2], threaded: f[3] == "1", args: decList(f[5]), files: decFiles(f[6])}
-			execute(c, r, c.Scale(6, 30))
+			execute(c, byLine[i], c.Scale(6, 30))
 		case f[0] == "C18.table":
 			c.Emit("C18.table")
 		case f[0] == "C18.selftest":
@@ -496,7 +591,9 @@ func Run(c *core.Ctx) {
 	for rep := 0; rep < inputs; rep++ {
 		in := genInputs(c, rep)
 		if c.Gotree != "" {
-			for _, r := range cliTemplates(c, in) {
+			reqs := cliTemplates(c, in)
+			earlyRuns(c, reqs)
+			for _, r := range reqs {
 				execute(c, r, nruns)
 			}
 		}
